@@ -15,7 +15,7 @@ LABEL_RULES = [
 ]
 # X models the code as it is in /repo: both defects are open on the pinned tree.  Set to True
 # after the corresponding "fix:" commit (the pre-fix behaviour stays reproducible with False).
-FIX_F8 = False
+FIX_F8 = True
 FIX_F9 = False
 # for trying a proposed fix on a scratch copy (VERIF_REPO=...): VERIF_PROMISE_FIX=F8 | F9 | F8,F9
 _fx = os.environ.get("VERIF_PROMISE_FIX", "")
